@@ -156,6 +156,9 @@ def gen_C18(g, tier):
     for _ in range(n):
         isc = g.choice([1, 2, 3, 10, 100, 1000, 12345, g.randint(1, 1000000)]); mp = g.choice([1.0, 1.0, 0.5, 0.25, 0.75])
         cs.append(Case('o.c18.scaletypes %d %s %s' % (isc, dhex(mp), ' '.join(str(rint(g)) for _ in range(4))), 'orc', 'scale-types', check=scaletypes_ok))
+    # Stokes vectors filled through the generic container fillers
+    for _ in range(max(4, n // 4)):
+        cs.append(Case('o.c18.containers %s %s' % (dhex(g.choice([1.0, 10.0, 0.5, 10 ** g.r.uniform(-3, 6)])), ' '.join(str(g.randint(10000, RAND_MAX - 10000)) for _ in range(16))), 'orc', 'containers-of-stokes'))
     for _ in range(n // 2):   # the fraction at (and just below) its maximum: the rounding of the single-precision paths
         isc = g.choice([1, 3, 10, 1000, 77777]); r0 = g.choice([RAND_MAX, RAND_MAX - 1, RAND_MAX - 100, RAND_MAX - 5000])
         cs.append(Case('o.c18.scaletypes %d %s %d %s' % (isc, dhex(g.choice([1.0, 0.5])), r0, ' '.join(str(g.randint(0, RAND_MAX)) for _ in range(3))), 'orc', 'scale-types-full-fraction', check=scaletypes_ok))
